@@ -81,6 +81,7 @@ int  mvsim_active(void);
 /* ---- for harness code running inside the simulation ---- */
 void     mvsim_user_point(void);              /* schedule point in user code */
 void     mvsim_set_clock_scale(uint64_t read_ns, uint64_t jump_ns);   /* virtual-clock increments from now on */
+size_t   mvsim_ledger_stack_extent(const void *sp);   /* size of the live thread stack containing sp, 0 if none */
 void     mvsim_user_spin(void);               /* one iteration of a user-level busy-wait: parked until another worker made progress */
 void     mvsim_quiesce(void);                 /* run the others until they all idle */
 uint64_t mvsim_step(void);                    /* global step number (event sequence number) */
